@@ -261,11 +261,13 @@ impl Prop for PTime {
                     "a" => add(a, off("now_off")),
                     _ => add(rn, off("now_off")),
                 };
-                // optionally in a time zone whose daylight-saving time began two days ago: whole elapsed periods are about
-                // elapsed time, not about what the wall clock showed
+                // optionally in a time zone whose daylight-saving time begins between the entry's modification time and 'now':
+                // whole elapsed periods are about elapsed time, not about what the wall clock showed at the two moments
                 let tz_before = std::env::var_os("TZ");
-                if plan.get("dst").and_then(|b| b.as_bool()).unwrap_or(false) {
-                    let days = rn.0.div_euclid(86400);
+                if plan.get("dst").and_then(|b| b.as_bool()).unwrap_or(false) && now.0 - m.0 >= 2 {
+                    let mid = m.0 + (now.0 - m.0) / 2;
+                    let days = mid.div_euclid(86400);
+                    let tod = mid.rem_euclid(86400);
                     // day of the year (0-based, leap days counted) from the civil-from-days algorithm
                     let z = days + 719468;
                     let era = z.div_euclid(146097);
@@ -275,9 +277,8 @@ impl Prop for PTime {
                     let y = yoe + era * 400 + if doy_mar >= 306 { 1 } else { 0 };
                     let leap = (y % 4 == 0 && y % 100 != 0) || y % 400 == 0;
                     let doy = if doy_mar >= 306 { doy_mar - 306 } else { doy_mar + 59 + if leap { 1 } else { 0 } };
-                    let start = (doy - 2).rem_euclid(365);
-                    let end = (start + 200).rem_euclid(365);
-                    std::env::set_var("TZ", format!("XST0XDT,{},{}", start, end));
+                    let end = (doy + 150).rem_euclid(365);
+                    std::env::set_var("TZ", format!("XST0XDT,{}/{:02}:{:02}:{:02},{}", doy, tod / 3600, (tod / 60) % 60, tod % 60, end));
                 }
                 let mut res = vec![];
                 for t in arr(&input["tests"]) {
